@@ -57,7 +57,15 @@ def _make(rng, nb, sizes, n_par, term_orders, values, E, hermitian, log, state):
             return np.diag(E[i]) if i == j else zero
         if n not in term_orders:
             return zero
-        return values(i, j, n)
+        v = values(i, j, n)
+        if state.get("recursive") and sum(n) >= 2:
+            # Taylor-like recursive definition: the callback reads a lower term of its own series
+            q = next(k for k, x in enumerate(n) if x)
+            prev = n[:q] + (n[q] - 1,) + n[q + 1:]
+            w = state["H"][(i, j) + prev]
+            if w is not zero:
+                v = v + 0.5 * w
+        return v
 
     if state.get("form", "blocks") == "blocks":
         return BlockSeries(eval=ev, shape=(nb, nb), n_infinite=n_par, name="H")
@@ -81,6 +89,11 @@ def _make(rng, nb, sizes, n_par, term_orders, values, E, hermitian, log, state):
         for i in range(nb):
             for j in range(nb):
                 M[off[i]:off[i + 1], off[j]:off[j + 1]] = values(i, j, n)
+        if state.get("recursive") and sum(n) >= 2:
+            q = next(k for k, x in enumerate(n) if x)
+            w = state["H"][n[:q] + (n[q] - 1,) + n[q + 1:]]
+            if w is not zero:
+                M = M + 0.5 * np.asarray(w)
         return M
 
     return BlockSeries(eval=ev_full, shape=(), n_infinite=n_par, name="H")
@@ -262,7 +275,16 @@ def run_case(spec):
         # no subspace argument: one block, fully diagonalised by default; the block structure is only in the values
         kwargs.pop("fully_diagonalize", None)
         sel = "single"
+    if form != "scalar_implicit" and rng.random() < 0.35:
+        # the series is defined recursively (its callback reads lower terms of the series itself) and the names of the
+        # perturbation parameters are passed with `symbols`
+        import sympy as _sp
+
+        state["recursive"] = True
+        kwargs["symbols"] = [_sp.Symbol(f"x{k}", real=True) for k in range(n_par)]
+        counters["recursive_series_with_symbols"] += 1
     H = _make(rng, nb, sizes, n_par, term_orders, base_values, E, hermitian, log, state)
+    state["H"] = H
     state["cone"] = (0,) * n_par  # defining may look at zeroth order only
     try:
         outs = block_diagonalize(H, **kwargs)
@@ -333,7 +355,8 @@ def run_case(spec):
     for vf_ in (base_values, mixed):
         st = {"phase": "meta", "cone": None}
         st["form"] = form
-        H2 = _make(rng, nb, sizes, n_par, (term_orders | {o for o in all_orders if any(a > b for a, b in zip(o, n))}) if vf_ is mixed else term_orders, vf_, E, hermitian, [], st)
+        st["recursive"] = state.get("recursive", False)
+        H2 = st["H"] = _make(rng, nb, sizes, n_par, (term_orders | {o for o in all_orders if any(a > b for a, b in zip(o, n))}) if vf_ is mixed else term_orders, vf_, E, hermitian, [], st)
         o2 = block_diagonalize(H2, **kwargs)
         vals.append(o2[s][(i, j) + n])
     a, b = vals
@@ -359,7 +382,7 @@ def run_case(spec):
 
 def finalize(c, tier, evaluations, distinct):
     reasons = []
-    need = dict(form_second_quantised=15, form_scalar_implicit=40, form_scalar_indices=50, form_scalar_vectors=50, form_scalar_single=50, form_blocks=100, multi_element_requests=200, requests=1000, hamiltonian_evals=1000, metamorphic_pairs=300, causal_nested_requests=10000, define_time_evals=500)
+    need = dict(recursive_series_with_symbols=100, form_second_quantised=15, form_scalar_implicit=40, form_scalar_indices=50, form_scalar_vectors=50, form_scalar_single=50, form_blocks=100, multi_element_requests=200, requests=1000, hamiltonian_evals=1000, metamorphic_pairs=300, causal_nested_requests=10000, define_time_evals=500)
     for k, v in need.items():
         if c.get(k, 0) < v:
             reasons.append(f"{k} observed only {c.get(k, 0)} times (< {v})")
